@@ -50,6 +50,25 @@ pub fn main() {
             }
         }
         "selftest" => crate::selftest::main(&args[2..]),
+        "bench" => {
+            let code = hex::decode("6001600055").unwrap();
+            let cfg = crate::subj::VmCfg::default();
+            let t = std::time::Instant::now();
+            for _ in 0..200 {
+                let _ = crate::subj::analyze(&code, &cfg, true, crate::subj::lazy());
+            }
+            println!("fast tc config: {:?} per analysis (valid={})", t.elapsed() / 200, crate::subj::fast_config_valid());
+            let t = std::time::Instant::now();
+            for _ in 0..50 {
+                let _ = crate::subj::analyze(&code, &cfg, false, crate::subj::lazy());
+            }
+            println!("default tc config: {:?} per analysis", t.elapsed() / 50);
+            let t = std::time::Instant::now();
+            for _ in 0..200 {
+                let _ = crate::subj::tc_config(true);
+            }
+            println!("tc_config(true): {:?}", t.elapsed() / 200);
+        }
         "values" => {
             // vcheck values <hex>: print every collected value of every state
             let code = hex::decode(args[2].trim_start_matches("0x")).expect("hex");
